@@ -409,6 +409,10 @@ def standins(prop, tier):
         out.append({'name': 'C12_retract', 'label': 'SeenSet.add / discard / check, exhaustive',
                     'bound': 'exhaustive: up to 3 (quick) / 4 (thorough) additions from a pool of 6 constraint objects, one discard, '
                              '5 lookups', 'args': {'max_adds': 3 if tier == 'quick' else 4}, 'timeout': 600})
+    if prop == 'C05':
+        out.append({'name': 'C05_most_general', 'label': 'BinaryOperator._most_general_ (which retrieved cache entries are replayed), exhaustive',
+                    'bound': 'exhaustive: lists of <= 3 (quick) / 4 (thorough) entries over the 9 partial assignments of 2 keys and 2 values',
+                    'args': {'max_entries': 3 if tier == 'quick' else 4}, 'timeout': 900})
     if prop == 'C20':
         out.append({'name': 'C20_cache', 'label': 'IndexedCache with values wrapped the way the library wraps them (HashedValue(v)), alphabet '
                                                   '-1, -2, True, 1 (equal hashes, different values), exhaustive',
